@@ -176,11 +176,11 @@ def width_lists(tier):
 
 def run(ctx):
     quick = ctx.tier == "quick"
-    max_length = 7 if quick else 9
+    max_length = 8 if quick else 10
     items = [(widths, delimiter, max_length, "ab\r\n") for widths in width_lists(ctx.tier) for delimiter in DELIMITERS]
     items.sort(key=lambda i: sum(i[0]))
     ctx.pmap(MOD, "enumerate_strings", items, label="C13 enumeration")
-    fix_lists = [[1], [2], [1, 1], [2, 1], [1, 2], [3], [1, 1, 1], [2, 2]] if quick else width_lists("thorough")
+    fix_lists = [[1], [2], [1, 1], [2, 1], [1, 2], [3], [1, 1, 1], [2, 2], [3, 1], [1, 3], [1, 2, 1], [2, 1, 2], [3, 3]] if quick else width_lists("thorough")
     fix_items = []
     for widths in fix_lists:
         alphabet = "ab\r\n" if sum(widths) <= (4 if quick else 6) else "a\r\n"
